@@ -113,6 +113,7 @@ func (e *Engine) Verify(key string) (res *FuncResult) {
 			}
 		}
 		fr.entry = st.clone()
+		vc.reqStart = len(vc.cmds)
 		for i, rq := range fc.Requires {
 			sc := fr.baseScope(st)
 			t, err := sc.compileBool(rq.Expr)
@@ -123,8 +124,10 @@ func (e *Engine) Verify(key string) (res *FuncResult) {
 			vc.assume(reach, t)
 		}
 	}
+	vc.entryLen = len(vc.cmds)
 	rets := fr.run(reach, st)
 	for ri, r := range rets {
+		vc.curBlock = r.block
 		vc.exits = append(vc.exits, r.reach)
 		if fc == nil {
 			continue
